@@ -25,7 +25,9 @@ import (
 // a partition that currently has two primary owners (a join whose balancing has not finished).
 
 var c12Counts = []int{1, 2, 0} // 0 = default page size
-var c12Patterns = []string{"", "^a", "^zz"}
+// "0$" is unanchored and starts with a literal: it matches keys that END in 0 (a0), not keys that
+// start with it
+var c12Patterns = []string{"", "^a", "^zz", "0$"}
 
 // scanAll runs every (COUNT, MATCH) combination through the client iterator and through raw
 // DM.SCAN loops; present is the set of keys that must be reported.
